@@ -203,6 +203,8 @@ func fdValue(st *fdStore, typ string, key int64, nameKey string) interface{} {
 			return sc(a.V[1] + 1000*fdOrg(key))
 		case "aPlus":
 			return sc(a.V[0] + n)
+		case "echo":
+			return sc(fdEchoHash(key, fdEchoArgs(nameKey)))
 		case "b":
 			return ref(fdTB, a.B)
 		case "bs":
@@ -266,7 +268,7 @@ func fdHasType(p fdPartition, svc, typ string) bool {
 		}
 		switch typ {
 		case "A":
-			if f.Typ == "A" || f.Name == "as" || f.Name == "oneA" || f.Name == "us" || (f.Typ == "B" && (f.Name == "a" || f.Name == "as")) {
+			if f.Typ == "A" || f.Name == "as" || f.Name == "oneA" || f.Name == "us" || f.Name == "pickA" || (f.Typ == "B" && (f.Name == "a" || f.Name == "as")) {
 				return true
 			}
 		case "B":
@@ -425,7 +427,7 @@ func nzList(l []interface{}) []interface{} {
 func c06Model(c *Ctx, m *Model, w *fdWorld, cs c06Case, query string, gotGateway, wantMono interface{}) {
 	rep := c.Rep
 	one := c06Case{Store: cs.Store, Partition: cs.Partition, Queries: []string{query}}
-	q, err := graphql.Parse(query, map[string]interface{}{})
+	q, err := graphql.Parse(query, fdVars())
 	if err != nil {
 		return
 	}
@@ -532,7 +534,7 @@ func c06Model(c *Ctx, m *Model, w *fdWorld, cs c06Case, query string, gotGateway
 		return l
 	}
 	// the normalizer: the model's normal form of the raw query is the real flattener's output
-	rawQ, perr := graphql.Parse(query, map[string]interface{}{})
+	rawQ, perr := graphql.Parse(query, fdVars())
 	if perr == nil {
 		depth := 0
 		raw, rerr := fdEncRaw(in, rawQ.SelectionSet, &depth, 1)
@@ -610,4 +612,19 @@ func c06Model(c *Ctx, m *Model, w *fdWorld, cs c06Case, query string, gotGateway
 		return
 	}
 	rep.Count("model_compared")
+}
+
+// fdEchoArgs: the argument of A.echo as the resolver receives it, from the selection's arguments (after variable
+// substitution) as they appear in the name key
+func fdEchoArgs(nameKey string) fdIn {
+	var in fdIn
+	i := strings.Index(nameKey, "|")
+	if i < 0 {
+		return in
+	}
+	var args struct {
+		In fdIn `json:"in"`
+	}
+	json.Unmarshal([]byte(nameKey[i+1:]), &args)
+	return args.In
 }
